@@ -29,8 +29,14 @@ class Ob:
         self.quick.update(quick or {})
         self.thorough = dict(self.quick)
         self.thorough.update(thorough or {})
-        self.canary = canary
-        self.canary_part = canary_part
+        # canary: name | [(name, part), ...]
+        if canary is None:
+            self.canaries = []
+        elif isinstance(canary, str):
+            self.canaries = [(canary, canary_part)]
+        else:
+            self.canaries = [tuple(c) if not isinstance(c, str) else (c, canary_part)
+                             for c in canary]
         self.functions = list(functions)
         self.bounds = bounds
         self.outside = outside
@@ -43,6 +49,17 @@ class Ob:
 
     def cfg(self, tier):
         return self.thorough if tier == 'thorough' else self.quick
+
+
+def _pythonpath(env):
+    """/verif first; then the tree under test when it is not /repo itself (WN_REPO names a
+    scratch copy, used to try seeded changes without touching /repo)."""
+    parts = [VERIF]
+    if env.get('WN_REPO'):
+        parts.append(env['WN_REPO'])
+    if env.get('PYTHONPATH'):
+        parts.append(env['PYTHONPATH'])
+    return os.pathsep.join(parts)
 
 
 def load_harness_module(path):
@@ -61,7 +78,7 @@ def _spawn(job, tmpdir, tier, seed):
     env = dict(os.environ)
     env['VERIF_TIER'] = tier
     env['VERIF_SEED'] = str(seed)
-    env['PYTHONPATH'] = VERIF + os.pathsep + env.get('PYTHONPATH', '')
+    env['PYTHONPATH'] = _pythonpath(env)
     env['PYTHONHASHSEED'] = '0'
     env.update(job.get('env') or {})
     log = open(os.path.join(tmpdir, f"job{job['n']}.log"), 'w')
@@ -139,7 +156,7 @@ def replay_call(harness, fn, part, call, canary='', timeout=600):
     cmd = [PY, '-m', 'vf.replay', '--harness', harness, '--fn', fn, '--part', part,
            '--call', call, '--canary', canary]
     env = dict(os.environ)
-    env['PYTHONPATH'] = VERIF + os.pathsep + env.get('PYTHONPATH', '')
+    env['PYTHONPATH'] = _pythonpath(env)
     env.pop('VF_TWIN', None)
     try:
         p = subprocess.run(cmd, cwd=VERIF, env=env, capture_output=True, text=True,
@@ -212,12 +229,12 @@ def check_property(pid, harness_path, tier, seed, only=None):
                                  part=f'{i}/{parts}', mode=mode, timeout=to,
                                  path_timeout=cfg.get('path_timeout', o.path_timeout),
                                  wall_cap=to * 2 + 60, env=cfg.get('env')))
-        if o.canary:
+        for cname, cpart in o.canaries:
             n += 1
-            cpart = o.canary_part if o.canary_part < parts else 0
+            cpart = cpart if cpart < parts else 0
             to = o.canary_timeout or max(cfg['timeout'], 120)
             jobs.append(dict(n=n, ob=o.name, harness=harness_path, fn=o.fn,
-                             part=f'{cpart}/{parts}', mode='canary', canary=o.canary,
+                             part=f'{cpart}/{parts}', mode='canary', canary=cname,
                              timeout=to, path_timeout=cfg.get('path_timeout', o.path_timeout),
                              wall_cap=to * 2 + 60, env=cfg.get('env')))
     # long jobs first
@@ -282,29 +299,32 @@ def check_property(pid, harness_path, tier, seed, only=None):
                         f"{o.name}[{j['part']}]: reachability twin says the harness is vacuous "
                         f"({v}) {r.get('error', '')[-800:]}")
             else:  # canary
-                row['canary'] = {'name': o.canary, 'verdict': v}
+                cname = j['canary']
+                crow = {'name': cname, 'verdict': v}
+                row.setdefault('canaries', []).append(crow)
                 if v == 'counterexample':
                     call = r.get('cex_call')
-                    row['canary']['witness'] = call
+                    crow['witness'] = call
                     if call:
-                        rr = replay_call(harness_path, o.fn, j['part'], call, canary=o.canary)
-                        row['canary']['replay_fails_on_broken_copy'] = \
+                        rr = replay_call(harness_path, o.fn, j['part'], call, canary=cname)
+                        crow['replay_fails_on_broken_copy'] = \
                             rr.get('result') in (False, 'exception')
                         if rr.get('result') is True:
-                            notes.append(f"{o.name}: canary witness does not reproduce "
-                                         f"concretely on the broken copy")
+                            notes.append(f"{o.name}: witness of canary '{cname}' does not "
+                                         f"reproduce concretely on the broken copy")
                 elif v == 'confirmed':
                     harness_errors.append(
-                        f"{o.name}: canary '{o.canary}' (deliberately broken copy) was "
+                        f"{o.name}: canary '{cname}' (deliberately broken copy) was "
                         f"'confirmed' - the harness is blind to it")
                 elif v == 'harness-error' and 'text patch' in r.get('error', ''):
-                    row['canary']['verdict'] = 'unavailable'
-                    notes.append(f"{o.name}: canary patch no longer matches the source")
+                    crow['verdict'] = 'unavailable'
+                    notes.append(f"{o.name}: patch of canary '{cname}' no longer matches the "
+                                 f"source")
                 elif v == 'harness-error':
-                    harness_errors.append(f"{o.name}: canary run failed: "
+                    harness_errors.append(f"{o.name}: canary '{cname}' run failed: "
                                           f"{r.get('error', '')[-800:]}")
                 else:
-                    notes.append(f"{o.name}: canary not killed within budget ({v})")
+                    notes.append(f"{o.name}: canary '{cname}' not killed within budget ({v})")
         if any(v == 'violation' for v in verdicts):
             row['verdict'] = 'violation'
         elif any(v in ('harness-error', 'pre-unsat') for v in verdicts):
